@@ -25,10 +25,10 @@ if [ -f $DEMO ]; then
 elif [ -f SEEDED/demo.py ]; then
   # Python demonstration against the extension module built in the worktree
   pybuild() { PYO3_PYTHON=$(command -v python3-vt) CARGO_NET_OFFLINE=true cargo build --offline -p pybigtools --no-default-features > "$OUT/pybuild.log" 2>&1 && mkdir -p /tmp/pyext_$NAME && cp target/debug/libpybigtools.so /tmp/pyext_$NAME/pybigtools.so; }
-  pybuild; PYTHONPATH=/tmp/pyext_$NAME python3-vt SEEDED/demo.py > "$OUT/demo_with.log" 2>&1; W=$?
+  pybuild; PYTHONPATH=/tmp/pyext_$NAME python3-vt SEEDED/demo.py /tmp/pyext_$NAME/pybigtools.so > "$OUT/demo_with.log" 2>&1; W=$?
   git apply -R SEEDED/patch.diff || { echo "cannot reverse patch"; exit 2; }
   echo "== demo WITHOUT change"
-  pybuild; PYTHONPATH=/tmp/pyext_$NAME python3-vt SEEDED/demo.py > "$OUT/demo_without.log" 2>&1; WO=$?
+  pybuild; PYTHONPATH=/tmp/pyext_$NAME python3-vt SEEDED/demo.py /tmp/pyext_$NAME/pybigtools.so > "$OUT/demo_without.log" 2>&1; WO=$?
   git apply SEEDED/patch.diff
   rm -rf /tmp/pyext_$NAME
   echo "== existing suite WITH change"
